@@ -234,6 +234,57 @@ func vChooseCorpusCase(r *vx.Run, docs []vDoc, families []string) vCase {
 			}
 		}
 		return vCase{fmt.Sprintf("periodic:%s:%s every %d phase %d", d.Key, vEditNames[kind], p, ph), t.bytes(), d.Key}
+	case "selfrepeat":
+		// parts of the text occur twice in one input: the document twice, its longest line (as it is,
+		// or a whole paragraph joined into one line) ahead of it or behind it
+		d := docs[r.Choose(len(docs), "doc")]
+		kind := r.Choose(5, "repeat")
+		text := string(d.Bytes)
+		lines := strings.Split(text, "\n")
+		longest := ""
+		for _, l := range lines {
+			if len(l) > len(longest) {
+				longest = l
+			}
+		}
+		var in string
+		switch kind {
+		case 0:
+			in = text + "\n" + text
+		case 1:
+			in = longest + "\n" + vOOVBlock(1, 4, 3) + text
+		case 2:
+			in = text + "\n" + vOOVBlock(1, 4, 3) + longest + "\n"
+		case 3, 4:
+			// one line per paragraph
+			var paras, cur []string
+			for _, l := range lines {
+				if strings.TrimSpace(l) == "" {
+					if len(cur) > 0 {
+						paras = append(paras, strings.Join(cur, " "))
+						cur = nil
+					}
+					continue
+				}
+				cur = append(cur, strings.TrimSpace(l))
+			}
+			if len(cur) > 0 {
+				paras = append(paras, strings.Join(cur, " "))
+			}
+			u := strings.Join(paras, "\n")
+			lp := ""
+			for _, p := range paras {
+				if len(p) > len(lp) {
+					lp = p
+				}
+			}
+			if kind == 3 {
+				in = u + "\n" + vOOVBlock(1, 4, 3) + u
+			} else {
+				in = lp + "\n" + vOOVBlock(1, 4, 3) + u
+			}
+		}
+		return vCase{fmt.Sprintf("selfrepeat:%s:%s", d.Key, []string{"document twice", "longest line, filler, document", "document, filler, longest line", "one line per paragraph, twice", "longest paragraph line, filler, one line per paragraph"}[kind]), []byte(in), d.Key}
 	case "boundary":
 		// edit totals placed ON the rejection boundary: with K the token count of the document, a total
 		// of K*pct/100 + delta edited words (pct 10/20/30 for thresholds 0.9/0.8/0.7) - as single
